@@ -512,6 +512,9 @@ def condition_from_proto(condition: v2.program_pb2.Arg) -> Condition:
         else:
             expr = arg_from_proto(condition)
             return SympyCondition(expr)
+    elif which == 'symbol':
+        # A condition that is a bare symbol (the record of that key is non-zero).
+        return SympyCondition(sympy.Symbol(condition.symbol))
     else:
         raise ValueError(f'Unrecognized condition {condition}')  # pragma: nocover
 
